@@ -147,7 +147,7 @@ def run(chk):
         fail["explains"] = ["build:Poupool.Properties.C10"] + THEOREMS
         chk.violation("EcoMode.compute:phase-lengths", "the real EcoMode.compute yields a negative pause / pool phase, a tank phase below one minute, or raises: " + fail["observed"], fail)
     # 5. closed loop
-    mfail, cbad = closed_loop(chk, 48 if quick else 640)
+    mfail, cbad = closed_loop(chk, 112 if quick else 800)
     if mfail:
         d = mfail["days"][0]
         chk.violation(
